@@ -109,7 +109,7 @@ def check_G2(ctx, facts):
            'every key of the new handlers is recorded under the service name' if good else 'service table does not record every new handler key under the service name')
 
 
-def check_G3(ctx, facts, dispatch_sem=False, key_sem=False):
+def check_G3_server_side(ctx, facts, key_sem):
     # registry side
     addh = facts.body(R + 'handler::ServiceRegistry::add_handler')
     gh = facts.body(R + 'server::ServerState::get_handler')
@@ -170,6 +170,15 @@ def check_G3(ctx, facts, dispatch_sem=False, key_sem=False):
     ok_types = all(tp in ('alloc::string::String', 'str') for _w, tp in hash_types) and len(hash_types) >= 2
     ctx.ob('C13.G3', 'hash-instantiation', ok_types, '', 'hash instantiated at %s (String and str hash alike)' % hash_types if ok_types else
            'hash is instantiated at %s: registry and lookup keys hash differently' % hash_types)
+
+
+def check_G3(ctx, facts, dispatch_sem=False, key_sem=False, black_box=False):
+    if not black_box:
+        check_G3_server_side(ctx, facts, key_sem)
+    mm = facts.body(R + 'request::MessageMetadata::to_uri_path')
+    if mm is None:
+        ctx.bad('C13.G3', 'anchors', '', 'MessageMetadata::to_uri_path not found (fail closed)')
+        return
     # request path handed to get_handler unmodified
     thr = [b for b in facts.bodies.values() if b.crate == 'datacake_rpc' and b.kind == 'coroutine' and b.name.startswith(R + 'net::server::try_handle_request')]
     # (decided by the dispatch summary when it applies: there the registered handler is only found if the path reaches the lookup
@@ -263,7 +272,10 @@ def check(ctx):
     # SEM: the registry's add / remove / lookup summarised per (service, key) over its finite abstract state (registry_abs);
     # subsumes G1 and G2, which are evaluated only when a construct is not modelled
     import registry_abs
-    if not registry_abs.check_registry(ctx, facts, 'C13.SEM'):
+    # black box first: every sequence of up to three add_service / remove_service calls through the server's own API, observed through
+    # the lookup the connection handler uses — independent of how the registry is represented
+    bb = registry_abs.check_server(ctx, facts, 'C13.SEM')
+    if not registry_abs.check_registry(ctx, facts, 'C13.SEM') and not bb:
         check_G1(ctx, facts, cg)
         check_G2(ctx, facts)
     # SEM: one request through the connection handler, interpreted against a registry that does / does not hold the handler and
@@ -273,6 +285,8 @@ def check(ctx):
     # SEM: the key a handler ends up under in the handler map and the URI the client builds, as symbolic terms over
     # service_name() / path() / to_uri_path / hash (registry_abs.check_keys); subsumes the registry-key and client-uri clauses of G3
     ksem = registry_abs.check_keys(ctx, facts, 'C13.SEM')
-    check_G3(ctx, facts, dispatch_sem=bool(sem), key_sem=bool(ksem))
+    if not ksem and bb:
+        ksem = registry_abs.check_keys(ctx, facts, 'C13.SEM', registry_side=False)      # (the registry side is decided by the black box)
+    check_G3(ctx, facts, dispatch_sem=bool(sem), key_sem=bool(ksem), black_box=bool(bb))
     if not sem:
         check_G4(ctx, facts)
